@@ -126,6 +126,11 @@ class PropertyRun:
         for idx, obs in all_obs:
             self.results[idx][2] = verdicts[k:k + len(obs)]
             k += len(obs)
+        if os.environ.get('PYVC_SLOW'):
+            for case, res, vs in self.results:
+                for v in vs or []:
+                    if v.seconds > float(os.environ['PYVC_SLOW']):
+                        print('SLOW %.1fs %s %s %s' % (v.seconds, v.status, v.backend, v.ob.name[-120:]))
         # vacuity: every reported return/raise path must be satisfiable
         self.covers = {'checked': 0, 'not_refuted': 0, 'unreachable': 0}
         cov = [(case, tag, kind, pc) for case, res, _ in self.results for tag, kind, pc in res.covers]
